@@ -202,3 +202,135 @@ Proof.
   apply line_cands_reach; [|exact L].
   intros i b b' H1 H2. replace (1 + N.of_nat i) with (N.of_nat i + 1) by lia. apply (P i); assumption.
 Qed.
+
+(* ---------- the sorted case: any permutation of terminated blocks is accepted ---------- *)
+From Coq Require Import Permutation.
+
+Fixpoint remove_nth {A} (n : nat) (l : list A) : list A :=
+  match l, n with
+  | [], _ => []
+  | _ :: l', O => l'
+  | x :: l', S n' => x :: remove_nth n' l'
+  end.
+
+Lemma pick_each_nth {A} (l : list A) i x : nth_error l i = Some x -> In (x, remove_nth i l) (pick_each l).
+Proof.
+  revert i; induction l as [|y l IH]; intros [|i] H; simpl in *; try discriminate.
+  - inversion H; subst. left. reflexivity.
+  - right. apply (in_map (fun p => (fst p, y :: snd p)) _ _ (IH _ H)).
+Qed.
+
+Lemma remove_nth_length {A} (l : list A) i : (i < length l)%nat -> S (length (remove_nth i l)) = length l.
+Proof. revert i; induction l as [|y l IH]; intros [|i] H; simpl in *; try lia. rewrite IH by lia. reflexivity. Qed.
+
+Lemma remove_nth_app {A} (l1 : list A) x l2 : remove_nth (length l1) (l1 ++ x :: l2) = l1 ++ l2.
+Proof. induction l1; simpl; [reflexivity|]. f_equal. assumption. Qed.
+
+Lemma Permutation_cons_nth {A} (b : A) bs' bs :
+  Permutation (b :: bs') bs -> exists i, nth_error bs i = Some b /\ Permutation bs' (remove_nth i bs).
+Proof.
+  intro P. assert (Hin : In b bs) by (eapply Permutation_in; [exact P|left; reflexivity]).
+  apply in_split in Hin as (l1 & l2 & ->). exists (length l1). split.
+  - rewrite nth_error_app2 by lia. rewrite Nat.sub_diag. reflexivity.
+  - rewrite remove_nth_app. eapply Permutation_cons_app_inv. exact P.
+Qed.
+
+Lemma Forall2_remove_nth {A B} (R : A -> B -> Prop) a b i :
+  Forall2 R a b -> Forall2 R (remove_nth i a) (remove_nth i b).
+Proof.
+  intro H. revert i; induction H as [|x y a b Hxy Hab IH]; intros [|i]; simpl.
+  - constructor.
+  - constructor.
+  - exact Hab.
+  - constructor; [exact Hxy|apply IH].
+Qed.
+
+Lemma Forall2_nth_r {A B} (R : A -> B -> Prop) a b i y :
+  Forall2 R a b -> nth_error b i = Some y -> exists x, nth_error a i = Some x /\ R x y.
+Proof.
+  intro H. revert i; induction H as [|x y' a b Hxy _ IH]; intros [|i] Hn; simpl in *; try discriminate.
+  - inversion Hn; subst. exists x. auto.
+  - apply IH. exact Hn.
+Qed.
+
+Definition nil_or_nl (t : str) : Prop := t = [] \/ ends_nl t = true.
+
+Lemma match_perm_complete bs' : forall cands bs,
+  Forall2 (fun cs b => In (flat_block b) cs) cands bs ->
+  Permutation bs' bs ->
+  Forall (fun b => nil_or_nl (flat_block b)) bs' ->
+  match_perm (length cands) cands (flat_blocks bs') = true.
+Proof.
+  induction bs' as [|b bs' IH]; intros cands bs F P T.
+  - apply Permutation_nil in P. subst bs. inversion F; subst. reflexivity.
+  - destruct (Permutation_cons_nth _ _ _ P) as (i & Hi & P').
+    destruct (Forall2_nth_r _ _ _ _ _ F Hi) as (cs & Hcs & Hin).
+    assert (Hlen : S (length (remove_nth i cands)) = length cands).
+    { apply remove_nth_length. apply nth_error_Some. congruence. }
+    destruct cands as [|c0 cands0]; [destruct i; discriminate|].
+    rewrite <- Hlen. cbn [match_perm].
+    apply existsb_exists. exists (cs, remove_nth i (c0 :: cands0)). split; [apply pick_each_nth; exact Hcs|].
+    cbn [fst snd]. apply existsb_exists. exists (flat_block b). split; [exact Hin|].
+    unfold flat_blocks. cbn [map concat]. fold (flat_blocks bs').
+    assert (Hs : strip_prefix (flat_block b) (flat_block b ++ flat_blocks bs') = Some (flat_blocks bs'))
+      by (apply strip_prefix_some; reflexivity).
+    rewrite Hs. inversion T as [|? ? Tb Ts]; subst.
+    apply andb_true_iff. split.
+    + destruct Tb as [E|E]; rewrite E; [reflexivity|]. rewrite orb_true_r. reflexivity.
+    + apply (IH _ (remove_nth i bs)); [apply Forall2_remove_nth; exact F|exact P'|exact Ts].
+Qed.
+
+Theorem reach_consistent_sorted old log st bs' :
+  reach (init_blocks old) log st -> has_sort log = true ->
+  Permutation bs' st -> Forall (fun b => nil_or_nl (flat_block b)) bs' ->
+  consistent old log (flat_blocks bs') = true.
+Proof.
+  intros R Hs P T. apply reach_project in R as (L & Rg & Pr).
+  unfold init_blocks in *. rewrite map_length in *.
+  unfold consistent. rewrite Rg, Hs. cbn [andb].
+  apply (match_perm_complete bs' _ st); [|exact P|exact T].
+  apply line_cands_reach; [|exact L].
+  intros i b b' H1 H2. replace (1 + N.of_nat i) with (N.of_nat i + 1) by lia. apply (Pr i); assumption.
+Qed.
+
+(* terminators *)
+Lemma ends_nl_app_nonempty (a b : str) : b <> [] -> ends_nl (a ++ b) = ends_nl b.
+Proof.
+  intro H. unfold ends_nl. rewrite rev_app_distr. destruct (rev b) as [|c r] eqn:E; [|reflexivity].
+  exfalso. apply H. rewrite <- (rev_involutive b), E. reflexivity.
+Qed.
+
+Lemma ends_nl_snoc (t : str) : ends_nl (t ++ nl) = true.
+Proof. rewrite ends_nl_app_nonempty by discriminate. reflexivity. Qed.
+
+Lemma nil_or_nl_app a b : nil_or_nl a -> nil_or_nl b -> nil_or_nl (a ++ b).
+Proof.
+  intros Ha [E|Hb]; [subst b; rewrite app_nil_r; exact Ha|].
+  right. rewrite ends_nl_app_nonempty; [exact Hb|]. intro E; subst. discriminate.
+Qed.
+
+Lemma nil_or_nl_concat (l : list str) : Forall (fun a => ends_nl a = true) l -> nil_or_nl (concat l).
+Proof.
+  induction 1 as [|a l Ha _ IH]; [left; reflexivity|]. cbn. apply nil_or_nl_app; [right; exact Ha|exact IH].
+Qed.
+
+Lemma phys_lines_nonempty s : Forall (fun l => l <> []) (phys_lines s).
+Proof.
+  induction s as [|c s IH]; cbn; [constructor|].
+  destruct (c =? 10); [constructor; [discriminate|exact IH]|].
+  destruct (phys_lines s) as [|l ls]; [constructor; [discriminate|constructor]|].
+  inversion IH; subst. constructor; [discriminate|assumption].
+Qed.
+
+(* every physical line but the last one ends with a newline *)
+Lemma phys_lines_terminated s : Forall (fun l => ends_nl l = true) (removelast (phys_lines s)).
+Proof.
+  induction s as [|c s IH]; cbn [phys_lines]; [constructor|].
+  destruct (N.eqb_spec c 10) as [->|Hc].
+  - cbn [removelast]. destruct (phys_lines s) as [|l ls]; [constructor|]. constructor; [reflexivity|exact IH].
+  - pose proof (phys_lines_nonempty s) as NE.
+    destruct (phys_lines s) as [|l ls]; [constructor|].
+    cbn [removelast] in *. destruct ls as [|l2 ls]; [constructor|].
+    inversion IH as [|? ? Hl Hls]; subst. inversion NE; subst. constructor; [|exact Hls].
+    change (c :: l) with ([c] ++ l). rewrite ends_nl_app_nonempty by assumption. exact Hl.
+Qed.
